@@ -150,6 +150,7 @@ EligPots(C, St, collected) ==
   IN Bind([i \in Pl(C) |-> collected[i] - sub(i)], Body)
 
 Split(amount, k, j) == (amount \div k) + (IF j = 1 THEN amount % k ELSE 0)      \* the j-th of k even parts, odd chips to the first
+\* (with fractional chip types there are no odd chips: amounts are in units in which every part is whole, so amount % k = 0)
 
 \* what player i is awarded from a pot with eligible set X and unraked amount u
 AwardFromPot(C, St, X, u, i) ==
